@@ -28,9 +28,12 @@ func c16Strip(s string) string {
 
 var c16Heads = []string{"", "REMOTE|h|100|1|f|", "REMOTE", "CLIENT|", "SERVER|h", "AGGREGATE|h|", "A", ".syn close connection", "AGGREGATE|h|k∥3∥count(x)≔", "AGGREGATE|h|k∥x∥count(x)≔1∥",
 	// heads 10-12 have a tail after the arbitrary bytes (c16Tails): complete aggregate records
-	"AGGREGATE|h|k∥3∥count(x)≔", "AGGREGATE|h|k∥3∥last(y)≔", "AGGREGATE|h|k∥"}
+	"AGGREGATE|h|k∥3∥count(x)≔", "AGGREGATE|h|k∥3∥last(y)≔", "AGGREGATE|h|k∥",
+	// heads 13-14: records relayed from a server / printed for the client with the arbitrary
+	// bytes where the severity goes and further fields after them
+	"SERVER|h|", "CLIENT|h|"}
 
-var c16Tails = map[int]string{10: "∥", 11: "∥count(x)≔1∥", 12: "∥count(x)≔2∥last(y)≔v∥"}
+var c16Tails = map[int]string{10: "∥", 11: "∥count(x)≔1∥", 12: "∥count(x)≔2∥last(y)≔v∥", 13: "|1005-101500|disk almost full", 14: "|1005-101500|x|y"}
 
 // VerifC16bWire: a server message stream (head + n arbitrary ESC-free bytes
 // + delimiter) into each client handler, colours on/off: no crash; in colour
